@@ -598,6 +598,14 @@ def apply_rws(text, d, log):
         if rw.get('method'):
             text = rewrite_method_calls(text, rw['old'].strip(), rw['new'].strip(), rw['rule'], log)
             continue
+        if rw['ordinal'] is None and rw['rule'] in ('R1', 'R11', 'R5') and '@@BODY' not in rw['new'] and not rw.get('sig'):
+            # an outline / path rewrite stands for that expression wherever it occurs: when a changed tree has the pattern more
+            # than once (a new branch repeating it), every occurrence is rewritten instead of giving up as ambiguous
+            try:
+                find_span_holes(text, rw['old'], None, 'rewrite site (%s)' % rw['rule'])
+            except GenError as e:
+                if 'ambiguous' in str(e):
+                    rw = dict(rw, ordinal=0)
         if rw['ordinal'] == 0:
             # every occurrence (at least one)
             n = 0
